@@ -158,7 +158,8 @@ def build(job):
         for (m, nm, aff) in ((opt, oname, False), (ref, rname, True)):
             G1b = (m.G1[0], m.G1[1] + m.FQ(1)) + (() if aff else (m.FQ(1),))
             G2b = (m.G2[0] + m.FQ2([1, 0]), m.G2[1]) + (() if aff else (m.FQ2.one(),))
-            for (Q, Pp) in ((m.G2, G1b), (G2b, m.G1)):
+            for (Q, Pp) in ((m.G2, G1b), (G2b, m.G1), (G2b, m.Z1), (m.Z2, G1b), (G2b, G1b),
+                            (G2b, m.multiply(m.G1, 5)), (m.multiply(m.G2, 5), G1b)):
                 try:
                     m.pairing(Q, Pp)
                     t.ev(op="refuse", m=nm, res=0)
